@@ -651,6 +651,26 @@ func (x *xl) expr(e ast.Expr, g *xGuards) string {
 		}
 		return x.varName(e)
 	case *ast.UnaryExpr:
+		if e.Op == token.NOT { // normalisation: the negation of an integer comparison is the opposite comparison, !!c is c
+			inner := xUnparen(e.X)
+			if u, ok := inner.(*ast.UnaryExpr); ok && u.Op == token.NOT {
+				return x.expr(u.X, g)
+			}
+			if b, ok := inner.(*ast.BinaryExpr); ok {
+				opp := map[token.Token]token.Token{token.LSS: token.GEQ, token.GEQ: token.LSS, token.GTR: token.LEQ, token.LEQ: token.GTR, token.EQL: token.NEQ, token.NEQ: token.EQL}
+				if o, isCmp := opp[b.Op]; isCmp {
+					t := x.info.TypeOf(b.X)
+					if tv := x.info.Types[b.X]; tv.Value != nil {
+						t = x.info.TypeOf(b.Y)
+					}
+					if _, _, isInt := xIntType(t); isInt && t != nil {
+						nb := *b
+						nb.Op = o
+						return x.binary(&nb, g)
+					}
+				}
+			}
+		}
 		a := x.expr(e.X, g)
 		t := x.typeOf(e)
 		switch e.Op {
@@ -717,9 +737,83 @@ func (x *xl) expr(e ast.Expr, g *xGuards) string {
 	return ""
 }
 
+// xUnparen: e without enclosing parentheses
+func xUnparen(e ast.Expr) ast.Expr {
+	for {
+		p, ok := e.(*ast.ParenExpr)
+		if !ok {
+			return e
+		}
+		e = p.X
+	}
+}
+
+// chain: the operands of a chain a op b op c (op = && or ||), left to right
+func xChain(e ast.Expr, op token.Token) []ast.Expr {
+	if b, ok := xUnparen(e).(*ast.BinaryExpr); ok && b.Op == op {
+		return append(xChain(b.X, op), xChain(b.Y, op)...)
+	}
+	return []ast.Expr{e}
+}
+
+// pureOperand: an operand of && / || whose evaluation has no effect and cannot panic: no call other than len and
+// conversions, no oracle (a run-time check would show up as a guard; that is tested after translation)
+func (x *xl) pureOperand(e ast.Expr) bool {
+	pure := true
+	ast.Inspect(e, func(n ast.Node) bool {
+		if ex, ok := n.(ast.Expr); ok {
+			if _, isO := x.unit.Oracles[x.src(ex)]; isO {
+				pure = false
+			}
+		}
+		if c, ok := n.(*ast.CallExpr); ok {
+			if tv, isT := x.info.Types[c.Fun]; isT && tv.IsType() {
+				return true
+			}
+			if id, isId := c.Fun.(*ast.Ident); !isId || id.Name != "len" {
+				pure = false
+			}
+		}
+		return pure
+	})
+	return pure
+}
+
 func (x *xl) binary(e *ast.BinaryExpr, g *xGuards) string {
 	switch e.Op {
 	case token.LAND, token.LOR: // the right operand (and its checks) is evaluated only if needed
+		// normalisation: a chain whose operands are all free of effects and run-time checks has the same value in any
+		// order of its operands; it is emitted in a canonical order (sorted by the emitted text), so that reordering the
+		// conjuncts in the source does not change the translation
+		if ops := xChain(e, e.Op); len(ops) >= 2 {
+			var ts []string
+			ok := true
+			for _, o := range ops {
+				var go_ xGuards
+				if !x.pureOperand(o) {
+					ok = false
+					break
+				}
+				t := x.expr(o, &go_)
+				if len(go_) > 0 {
+					ok = false
+					break
+				}
+				ts = append(ts, t)
+			}
+			if ok {
+				sort.Strings(ts)
+				r := ts[len(ts)-1]
+				for i := len(ts) - 2; i >= 0; i-- {
+					if e.Op == token.LAND {
+						r = "(if " + ts[i] + " then " + r + " else false)"
+					} else {
+						r = "(if " + ts[i] + " then true else " + r + ")"
+					}
+				}
+				return r
+			}
+		}
 		a := x.expr(e.X, g)
 		var gr xGuards
 		b := x.expr(e.Y, &gr)
@@ -764,7 +858,10 @@ func (x *xl) compare(e *ast.BinaryExpr, t types.Type, a, b string) string {
 	switch {
 	case isInt:
 		switch e.Op {
-		case token.EQL, token.NEQ:
+		case token.EQL, token.NEQ: // normalisation: a constant operand is written on the right
+			if tv := x.info.Types[e.X]; tv.Value != nil && x.info.Types[e.Y].Value == nil {
+				a, b = b, a
+			}
 			r = "(" + a + " =? " + b + ")"
 		case token.LSS:
 			return "(" + a + " <? " + b + ")"
@@ -1267,6 +1364,31 @@ func xFalls(ss []ast.Stmt) bool {
 	return true
 }
 
+// xNegated: c is the text (negb X) for one term X: X
+func xNegated(c string) (string, bool) {
+	if !strings.HasPrefix(c, "(negb ") || !strings.HasSuffix(c, ")") {
+		return "", false
+	}
+	in := c[len("(negb ") : len(c)-1]
+	depth := 0
+	for i, r := range in {
+		switch r {
+		case '(':
+			depth++
+		case ')':
+			depth--
+			if depth < 0 {
+				return "", false
+			}
+		case ' ':
+			if depth == 0 && i > 0 { // two terms at the top level: (negb a) b ...
+				return "", false
+			}
+		}
+	}
+	return in, depth == 0
+}
+
 func xInd(d int) string { return "\n" + strings.Repeat("  ", d) }
 
 // block: the statements ss followed by the continuation k (a ctl term), at nesting depth d
@@ -1486,14 +1608,18 @@ func (x *xl) stmt(s ast.Stmt, rest func() string, d int) string {
 		if s.Else != nil {
 			els = []ast.Stmt{s.Else}
 		}
-		vs := x.assigned(append(append([]ast.Stmt{}, s.Body.List...), els...))
-		if len(vs) == 0 && x.unit.Writer == nil && x.unit.State == nil && !(xFalls(s.Body.List) && xFalls(els)) {
+		thn := s.Body.List
+		vs := x.assigned(append(append([]ast.Stmt{}, thn...), els...))
+		if in, ok := xNegated(c); ok { // normalisation: `if !c {A} else {B}` is emitted as `if c {B} else {A}`
+			c, thn, els = in, els, thn
+		}
+		if len(vs) == 0 && x.unit.Writer == nil && x.unit.State == nil && !(xFalls(thn) && xFalls(els)) {
 			// at most one branch continues: no merge needed, the continuation goes into that branch
 			k := rest()
-			return xGuarded(g, "if "+c+xInd(d)+"then "+x.block(s.Body.List, k, d+1)+xInd(d)+"else "+x.block(els, k, d+1))
+			return xGuarded(g, "if "+c+xInd(d)+"then "+x.block(thn, k, d+1)+xInd(d)+"else "+x.block(els, k, d+1))
 		}
 		term, _, bind := x.state(s, vs)
-		return xGuarded(g, "bindc (if "+c+xInd(d+1)+"then "+x.block(s.Body.List, "Next "+term, d+2)+
+		return xGuarded(g, "bindc (if "+c+xInd(d+1)+"then "+x.block(thn, "Next "+term, d+2)+
 			xInd(d+1)+"else "+x.block(els, "Next "+term, d+2)+")"+xInd(d)+"("+bind+xInd(d)+rest()+")")
 	case *ast.SwitchStmt:
 		return x.switchStmt(s, rest, d)
@@ -1794,7 +1920,11 @@ func (x *xl) forStmt(s *ast.ForStmt, rest func() string, d int) string {
 	init, ok := s.Init.(*ast.AssignStmt)
 	if ok && init.Tok == token.DEFINE && len(init.Lhs) == 2 && len(init.Rhs) == 2 { // for i, e := a, n; i < e; i++: e is set once, before the loop
 		if ci, isB := s.Cond.(*ast.BinaryExpr); isB {
-			if yi, isId := ci.Y.(*ast.Ident); isId && x.info.ObjectOf(yi) == x.info.ObjectOf(init.Lhs[1].(*ast.Ident)) && x.src(init.Lhs[0]) != x.src(init.Lhs[1]) {
+			bound := ci.Y // the bound is the operand that is not the counter (i < e, e > i)
+			if xi, isId := ci.X.(*ast.Ident); isId && x.info.ObjectOf(xi) == x.info.ObjectOf(init.Lhs[1].(*ast.Ident)) {
+				bound = ci.X
+			}
+			if yi, isId := bound.(*ast.Ident); isId && x.info.ObjectOf(yi) == x.info.ObjectOf(init.Lhs[1].(*ast.Ident)) && x.src(init.Lhs[0]) != x.src(init.Lhs[1]) {
 				uses := false // the bound's value must not mention the counter (both are evaluated before either is set)
 				ast.Inspect(init.Rhs[1], func(n ast.Node) bool {
 					if id, isId := n.(*ast.Ident); isId && id.Name == x.src(init.Lhs[0]) {
@@ -1816,7 +1946,24 @@ func (x *xl) forStmt(s *ast.ForStmt, rest func() string, d int) string {
 	}
 	iv := x.lvalue(init.Lhs[0])
 	cond, ok := s.Cond.(*ast.BinaryExpr)
+	if ok { // normalisation: n > i is i < n, n <= i is i >= n
+		if yi, isId := cond.Y.(*ast.Ident); isId && iv != nil && x.info.ObjectOf(yi) == types.Object(iv) {
+			flip := map[token.Token]token.Token{token.GTR: token.LSS, token.LEQ: token.GEQ}
+			if o, isF := flip[cond.Op]; isF {
+				cond = &ast.BinaryExpr{X: cond.Y, OpPos: cond.OpPos, Op: o, Y: cond.X}
+			}
+		}
+	}
 	post, ok2 := s.Post.(*ast.IncDecStmt)
+	if as, isAs := s.Post.(*ast.AssignStmt); isAs && len(as.Lhs) == 1 && len(as.Rhs) == 1 { // normalisation: i += 1 is i++, i -= 1 is i--
+		if tv := x.info.Types[as.Rhs[0]]; tv.Value != nil && tv.Value.ExactString() == "1" && (as.Tok == token.ADD_ASSIGN || as.Tok == token.SUB_ASSIGN) {
+			tok := token.INC
+			if as.Tok == token.SUB_ASSIGN {
+				tok = token.DEC
+			}
+			post, ok2 = &ast.IncDecStmt{X: as.Lhs[0], TokPos: as.TokPos, Tok: tok}, true
+		}
+	}
 	down := ok && ok2 && cond.Op == token.GEQ && post.Tok == token.DEC // for i := a; i >= n; i-- : i = a, a-1, .., n
 	if iv == nil || !ok || !ok2 || !(down || (cond.Op == token.LSS && post.Tok == token.INC)) {
 		bad()
